@@ -233,18 +233,7 @@ func genInput(rt *rapid.T) (string, []string) {
 
 func TestEntryPointsAgree(t *testing.T) {
 	hx.Rule("entry_points_agree", "inputs with >= 1 non-semicolon token (valid, hostile layout, single-token corruptions, multi-statement scripts with stray semicolons, lexical soup with and without lexical errors) through 17 parse/validate/recovery entry points; all accept or all reject, trees equal, error codes equal; non-trivial = multi-statement, rejected or stray semicolon; distinct = class + token shape")
-	agreeCheck.Rapid(t, hx.N(20000, 200000), func(rt *rapid.T) AgreeCase {
-		s, cl := genInput(rt)
-		nt := false
-		for _, c := range cl {
-			if c == "corrupted" || c == "script" || c == "soup" {
-				nt = true
-			}
-		}
-		hx.Case("entry_points_agree", nt, strings.Join(cl, ",")+fmt.Sprint(len(s)), cl...)
-		hx.Sample("entry_points_agree", s)
-		return AgreeCase{SQL: s}
-	})
+	agreeCheck.Rapid(t, hx.N(20000, 200000), genEntryPointsAgree)
 }
 
 // ---------------------------------------------------------------- batch calls
@@ -396,3 +385,20 @@ func TestParserVariantsAgreeUnderOptions(t *testing.T) {
 		return c
 	})
 }
+
+// genEntryPointsAgree is the case generator of agreeCheck (shared by the rapid run and the native fuzz target).
+func genEntryPointsAgree(rt *rapid.T) AgreeCase {
+	s, cl := genInput(rt)
+	nt := false
+	for _, c := range cl {
+		if c == "corrupted" || c == "script" || c == "soup" {
+			nt = true
+		}
+	}
+	hx.Case("entry_points_agree", nt, strings.Join(cl, ",")+fmt.Sprint(len(s)), cl...)
+	hx.Sample("entry_points_agree", s)
+	return AgreeCase{SQL: s}
+}
+
+// FuzzEntryPointsAgree: coverage-guided search over the same generator (thorough tier).
+func FuzzEntryPointsAgree(f *testing.F) { agreeCheck.Fuzz(f, genEntryPointsAgree) }
